@@ -1,5 +1,6 @@
 import Driver.GcGuard
 import Driver.Expr
+import Driver.Anno
 /-! Line-protocol driver: one request per line, first token selects the model. -/
 
 def dispatch (line : String) : String :=
@@ -8,6 +9,8 @@ def dispatch (line : String) : String :=
   | "gcbfs" :: args => Driver.GcGuard.handleBfs args
   | "ev" :: args => Driver.Expr.handleEv (Driver.Expr.tokenize (" ".intercalate args))
   | "fold" :: args => Driver.Expr.handleFold (Driver.Expr.tokenize (" ".intercalate args))
+  | "ahandle" :: args => Driver.Anno.handleReq (Driver.Anno.tokenize (" ".intercalate args))
+  | "aunelim" :: args => Driver.Anno.unelimReq (Driver.Anno.tokenize (" ".intercalate args))
   | "meta" :: args => Driver.Expr.handleMeta (Driver.Expr.tokenize (" ".intercalate args))
   | "rules" :: args => Driver.Expr.handleRules (Driver.Expr.tokenize (" ".intercalate args))
   | _ => "bad-op"
